@@ -171,7 +171,15 @@ class ShapeEval:
         i = axis % len(s)
         return tuple((1 if j == i else d) for j, d in enumerate(s) if keepdims or j != i)
 
+    ragged: Callable[[Term], bool] | None = None  # element terms whose shape differs from one element of a Python list to the next
+
     def call(self, t: Term) -> tuple:
+        if self.ragged is not None and t[1][0] == "global" and t[1][1].startswith("numpy.") and t[2] and t[2][0][0] in ("mapped", "list", "tuple"):
+            from .sym import walk
+
+            if any(self.ragged(x) for x in walk(t[2][0])):
+                raise ShapeError(f"`{show(t)[:70]}` stacks per-rule values into one array: their shapes differ when some rules depend on the batch "
+                                 "(shape (n,)) and others do not (shape ()), which numpy rejects - while adding them one by one broadcasts")
         if self.call_hook is not None:
             v = self.call_hook(t, self)
             if v is not None:
